@@ -70,6 +70,7 @@ type State struct {
 	declSet map[string]bool // names declared
 	g       Ghost
 	txn     *Txn
+	sink    *State // when set, declarations and axiom instances made while evaluating in this (snapshot) state go there
 	locks   []string
 	trace   []TraceEv
 	defers  [][]deferred // per frame depth
@@ -239,6 +240,10 @@ func (st *State) known(t Term) int {
 
 // fact adds an instantiated axiom about a term just created (deduplicated).
 func (st *State) fact(t Term) {
+	if st.sink != nil {
+		st.sink.fact(t)
+		return
+	}
 	if t.IsTrue() {
 		return
 	}
@@ -251,6 +256,9 @@ func (st *State) fact(t Term) {
 }
 
 func (st *State) declare(name string, sort *Sort) Term {
+	if st.sink != nil {
+		return st.sink.declare(name, sort)
+	}
 	if !st.declSet[name] {
 		st.declSet[name] = true
 		st.decls = append(st.decls, smtDecl(name, sort))
